@@ -44,13 +44,14 @@ func runSolve(b block) {
 		case "build":
 			resNames = fs[1:]
 		case "solve":
-			kv := map[string]int{"iterations": 50, "duration_ms": 2000, "runs": 1, "starts": 1, "det": 1, "repeat": 1, "snap": 0, "cancel_ms": -1}
+			kv := map[string]int{"iterations": 50, "duration_ms": 2000, "runs": 1, "starts": 1, "det": 1, "repeat": 1, "snap": 0, "cancel_ms": -1, "jitter": 0}
 			for _, a := range fs[1:] {
 				p := strings.SplitN(a, "=", 2)
 				v, _ := strconv.Atoi(p[1])
 				kv[p[0]] = v
 			}
 			for rep := 0; rep < kv["repeat"]; rep++ {
+				kv["_rep"] = rep
 				solveOnce(fmt.Sprintf("%s r%d", b.id, rep), input, opts, resNames, kv)
 			}
 		}
@@ -67,6 +68,9 @@ func solveOnce(id string, input schema.Input, opts factory.Options, resNames []s
 	if err != nil {
 		fmt.Fprintf(out, "%s build error\n", id)
 		return
+	}
+	if kv["jitter"] > 0 {
+		model.AddSolutionObserver(&jitterObserver{rep: kv["_rep"], k: kv["jitter"]})
 	}
 	c := &engineCtx{id: id, model: model}
 	c.resExprs = make([]nextroute.ModelExpression, len(resNames))
@@ -86,23 +90,7 @@ func solveOnce(id string, input schema.Input, opts factory.Options, resNames []s
 			c.waitVeh = k
 		}
 	}
-	for i, fsu := range userDefs {
-		mx, _ := strconv.ParseFloat(fsu[2], 64)
-		base := userCons{ctx: c, field: fsu[1], max: mx, vehLevel: fsu[3] == "1", temporal: fsu[4] == "1", id: i}
-		if strings.HasPrefix(fsu[1], "level") {
-			base.field = "level"
-			base.r, _ = strconv.Atoi(strings.TrimPrefix(fsu[1], "level"))
-		}
-		var err error
-		if base.vehLevel {
-			err = model.AddConstraint(&userVehicleCons{base})
-		} else {
-			err = model.AddConstraint(&userStopCons{base})
-		}
-		if err != nil {
-			panic(err)
-		}
-	}
+	registerUsers(model, c)
 	solver, err := nextroute.NewParallelSolver(model)
 	if err != nil {
 		fmt.Fprintf(out, "%s solver error\n", id)
